@@ -249,6 +249,10 @@ func cmdCheck(args []string) int {
 	}
 	discharge(all, filepath.Join(work, "smt"), timeout, runtime.NumCPU())
 	res.Obls = all
+	if *tier == "thorough" {
+		// every discharged obligation is re-decided by a second, independent solver
+		confirm(all, timeout, runtime.NumCPU())
+	}
 
 	// ---- decide ----
 	known, fixed := loadKnown()
@@ -273,6 +277,12 @@ func cmdCheck(args []string) int {
 	knownSeen := map[string]bool{}
 	for _, o := range all {
 		ok := o.Status == "discharged" || o.Status == "covered" || o.Status == "covered-ground" || o.Status == "cover-inconclusive"
+		if ok && o.Second == "sat" {
+			// two solvers disagree on the same query: neither answer is believed
+			o.Status = "unknown"
+			o.Detail += " | second solver " + o.SecondSolver + " says sat: solver disagreement"
+			ok = false
+		}
 		if ok {
 			continue
 		}
@@ -538,6 +548,10 @@ func writeEvidence(path string, res *checkResult, nObl, nDis, nCover, nCovered i
 	var perObl []map[string]any
 	for _, o := range res.Obls {
 		e := map[string]any{"name": o.Name, "kind": o.Kind, "status": o.Status, "solver": o.Solver, "seconds": roundTo(o.Seconds, 3)}
+		if o.SecondSolver != "" {
+			e["second_solver"] = o.SecondSolver
+			e["second_answer"] = o.Second
+		}
 		if o.GenErr != "" {
 			e["gen_error"] = o.GenErr
 		}
@@ -598,6 +612,21 @@ func writeEvidence(path string, res *checkResult, nObl, nDis, nCover, nCovered i
 			"fixed_findings":           fixed,
 			"samples":                  samples,
 		},
+	}
+	if res.Tier == "thorough" {
+		agreed, single := 0, 0
+		for _, o := range res.Obls {
+			if o.Status != "discharged" || o.Solver == "trivial" {
+				continue
+			}
+			if o.Second == "unsat" {
+				agreed++
+			} else {
+				single++
+			}
+		}
+		ev["coverage"].(map[string]any)["confirmed_by_second_solver"] = agreed
+		ev["coverage"].(map[string]any)["decided_by_one_solver_only"] = single
 	}
 	if len(res.Bounded) > 0 {
 		var bl []map[string]any
